@@ -62,8 +62,17 @@ def inline_candidate(paths, struct, name):
         for e in items:
             if e['kind'] != 'fn' or e['fn'] != name or (e.get('impl') or '') != struct or e.get('trait'):
                 continue
-            if e['body'] is None or e['asyncness'] is not None or e['awaits'] or e['returns'] or e['tries']:
+            if e['body'] is None or e['asyncness'] is not None or e['awaits'] or e['tries']:
                 return None
+            # a helper with `return` statements can only be inlined at call sites of the form `helper(..)?` and only if it
+            # ends in `Ok(())` (a check extracted into a Result<(), E> helper): its `return Err(e)` then leaves the caller as the
+            # `?` did; a differing error type makes the inlined text ill-typed (inconclusive), never wrongly accepted
+            try_only = False
+            if e['returns']:
+                btxt = src[e['body'][0]:e['body'][1]].decode()
+                if not re.search(r'Ok\(\(\)\)\s*\}\s*$', btxt):
+                    return None
+                try_only = True
             params = []
             has_self = False
             for i0, i1 in e['inputs']:
@@ -80,7 +89,7 @@ def inline_candidate(paths, struct, name):
                 if not re.fullmatch(r'[A-Za-z_][A-Za-z0-9_]*', nm):
                     return None
                 params.append((('mut ' if is_mut else '') + nm, ty.strip()))
-            return {'path': path, 'e': e, 'params': params, 'has_self': has_self}
+            return {'path': path, 'e': e, 'params': params, 'has_self': has_self, 'try_only': try_only}
     return None
 
 
@@ -1045,9 +1054,16 @@ pub assume_specification [<{q} as PartialEq>::eq] (a: &{q}, b: &{q}) -> (r: bool
                 hb0, hb1 = he['body']
                 body_segs = _apply_edits(hsrc, hb0, hb1, self._inner_edits(hsrc, he, hb0, hb1, nm, inline=False))
                 body = ''.join(sg.text for sg in body_segs)
-                binds = ' '.join((f'let {pn} = {a};' if 'crate::' in pt or 'impl ' in pt else f'let {pn}: {pt} = {a};') for (pn, pt), a in zip(cand['params'], args))
+                s1_extra = 0
+                if cand.get('try_only'):
+                    mq = re.match(r'\s*\?', txt[close:])
+                    if not mq:
+                        raise ToolLimit(f'{nm}: helper with `return` is only inlined at `{nm}(..)?` call sites (R18)')
+                    s1_extra = len(mq.group(0).encode())
+                    body = re.sub(r'Ok\(\(\)\)(\s*\}\s*)$', r'\1', body)
+                binds = ' '.join((f'let {pn} = {a};' if '::' in pt or 'impl ' in pt else f'let {pn}: {pt} = {a};') for (pn, pt), a in zip(cand['params'], args))
                 s0 = lo + len(txt[:m.start()].encode())
-                s1 = lo + len(txt[:close].encode())
+                s1 = lo + len(txt[:close].encode()) + s1_extra
                 edits.append((s0, s1, [Seg('({ ' + binds + ' ' + body + ' })')]))
                 self._rw('R18')
                 if f'inlined helper {st}::{nm} (R18)' not in self.notes:
@@ -1094,8 +1110,10 @@ pub assume_specification [<{q} as PartialEq>::eq] (a: &{q}, b: &{q}) -> (r: bool
         return edits
 
     def loop_fn(self, path, impl, fn, k, name, sig, requires=(), ensures=(), invariant=(), iter=None, trait=None,
-                ghost_before='', ghost_loop_start='', ghost_loop_end='', ghost_after='', tail='', body_only=False, inner_closures=None):
+                ghost_before='', ghost_loop_start='', ghost_loop_end='', ghost_after='', tail='', body_only=False, inner_closures=None, pat_names=None):
         """R17: the k-th loop of a krill fn, verbatim, as the body of a standalone fn `name sig`.
+        pat_names: the names the loop pattern binds, in order, as the unit's texts (sig, contracts, ghost) use them; if the source
+        now binds other names at the same positions (a renamed loop variable), the texts follow the rename.
         body_only: only the loop BODY block is lifted (one iteration); mutable locals the body assigns are declared by
         `ghost_before` (e.g. `let mut required = required0;`) and returned by `tail` -- both supplied by the unit."""
         kw = {'fn': fn}
@@ -1108,6 +1126,20 @@ pub assume_specification [<{q} as PartialEq>::eq] (a: &{q}, b: &{q}) -> (r: bool
             raise LostAnchor(f'{fn}: loop #{k} not found ({len(e["loops"])} loops)')
         L = e['loops'][k]
         ls, lt = L['span']
+        if pat_names and L['kind'] == 'for':
+            now = re.findall(r'[A-Za-z_][A-Za-z0-9_]*', re.sub(r'\b(mut|ref)\b', ' ', src[L['pat'][0]:L['pat'][1]].decode()))
+            if len(now) == len(pat_names):
+                ren = {o: n for o, n in zip(pat_names, now) if o != n}
+                if ren:
+                    def _rn(t):
+                        for o, n in ren.items():
+                            t = re.sub(r'(?<![A-Za-z0-9_.])' + re.escape(o) + r'(?![A-Za-z0-9_])', n, t)
+                        return t
+                    sig = _rn(sig)
+                    requires = [(a, _rn(b)) for a, b in requires]
+                    ensures = [(a, _rn(b)) for a, b in ensures]
+                    invariant = [(a, _rn(b)) for a, b in invariant]
+                    ghost_before, ghost_loop_start, ghost_loop_end, ghost_after, tail = (_rn(x) for x in (ghost_before, ghost_loop_start, ghost_loop_end, ghost_after, tail))
         fid = f'{self.prop}.{self.name}.{(impl + "::") if impl else ""}{fn}.loop{k}'
         clause_list = []
         segs = [Seg(f'/*VXFN {fid}*/ pub fn {name}{sig}\n/*VXC*/\n')]
